@@ -3,9 +3,10 @@
 (* behind the unmodified GopherRequestHandler on a socket pair, real TLS sessions) with     *)
 (* module Gateway.  One trace = one history of 1 or 2 requests on one server; per request:  *)
 (*   [ev |-> "req",   fe, tls, sel, search, caddr, cport]      what was asked (gamma)        *)
-(*   [ev |-> "spawn", argv, env]       one per program run: what the program itself saw     *)
+(*   [ev |-> "spawn", argv, env, effects]  one per program run: what the program itself saw *)
 (*                                     (its argv and /proc/<pid>/environ, reported through  *)
-(*                                     a side file, NOT through the connection)             *)
+(*                                     a side file, NOT through the connection); effects =  *)
+(*                                     new entries of the server's working directory        *)
 (*   [ev |-> "pyg",   what |-> "load"]                       a PYG module body was executed *)
 (*   [ev |-> "pyg",   what |-> "write", sel, real, args, search]  what PYGMain holds        *)
 (*   [ev |-> "reply", st, mime, len, toks, argv, env, psaw]  the client's bytes, lexed      *)
@@ -36,7 +37,8 @@ Keep(v) == UNCHANGED gvars /\ UNCHANGED seen /\ verdict' = v
 
 \* ---- clause evaluation -----------------------------------------------------------------
 SpawnVerdict(e) ==
-    IF ~ArgvClause(e.argv, DocBase(rq.sel), DocArgs(rq.sel)) THEN "ArgvVerbatim"
+    IF e.effects # <<>> THEN "NoShell"         \* the run left something behind in the working directory
+    ELSE IF ~ArgvClause(e.argv, DocBase(rq.sel), DocArgs(rq.sel)) THEN "ArgvVerbatim"
     ELSE IF \E x \in EnvSet(e.env) : x[1] = "SEARCHREQUEST" /\ rq.search = "" THEN "NoStale"
     ELSE IF ~EnvClause(EnvSet(e.env), rq) THEN "EnvDocumented"
     ELSE "ok"
